@@ -61,7 +61,7 @@ def handle (op : String) (a : List String) : Option String :=
       | some (r, s) => some (b01 (ecdsaVerify c x y d r s))
       | none => some "0"
     | _, _, _, _, _ => none
-  | "c13.entropy", [cn, pos, _chunk] =>
+  | "c13.entropy", cn :: pos :: _chunk :: _ =>
     match Curve.byName cn, pos.toInt? with
     | some c, some pos => some (entropyModel c pos)
     | _, _ => none
@@ -82,7 +82,7 @@ def handle (op : String) (a : List String) : Option String :=
     match parseV pk, parseV msg, parseV sig with
     | some pk, some msg, some sig => some (b01 (Ed25519.verify sha512 pk msg sig))
     | _, _, _ => none
-  | "c14.genkey", [pos, _chunk] =>
+  | "c14.genkey", pos :: _chunk :: _ =>
     match pos.toInt? with
     | some pos =>
       if pos < 0 ∨ pos ≥ 32 then
